@@ -37,6 +37,12 @@ import (
 //	src_probing_key_is_the_id gateway_exclusive.go: the table in which the gateway remembers a token between its two
 //	                          requests (the map-typed field of struct exclusiveGateway) is keyed by the id type itself
 //	                          (id.Id), and every lookup indexes it with a flow's id as it stands (x.flowId, x.Id())
+//	src_flows_in_reference_order
+//	                          flow_wiring.go sequenceFlows: the i-th resolved flow is stored at index i of the result, i
+//	                          being the index of the reference it was resolved from (no append in another order)
+//	src_handler_read_only_on_error
+//	                          flow.go: every receive from an answer's handler channel (a field named handler) lies inside
+//	                          an if statement whose condition tests that the answer's error is not nil
 //	src_setvariable_replaces  pkg/data/impl.go FlowDataLocator.SetVariable: a stored value is never written through
 //	                          (no assignment to a field of something that was read out of the variables table); the
 //	                          name is pointed at another value instead
@@ -53,6 +59,8 @@ type protoFacts struct {
 	CounterNeverSetBack bool
 	AccumulatorIsLocal  bool
 	ProbingKeyIsTheId   bool
+	FlowsInRefOrder     bool
+	HandlerOnlyOnError  bool
 }
 
 func findMethod(f *ast.File, recv, name string) *ast.FuncDecl {
@@ -391,6 +399,97 @@ func protocolFacts(c *factsCtx) (pf protoFacts) {
 		})
 		pf.ProbingKeyIsTheId = good
 	}
+	// --- flow_wiring.go: the order of a node's flows
+	if f := c.parse("flow_wiring.go"); f == nil {
+		c.fail("protocol facts: flow_wiring.go not found")
+	} else {
+		found := false
+		for _, d := range f.Decls {
+			fd, ok := d.(*ast.FuncDecl)
+			if !ok || fd.Name.Name != "sequenceFlows" || fd.Body == nil || fd.Type.Params == nil || len(fd.Type.Params.List) < 2 {
+				continue
+			}
+			found = true
+			refs := ""
+			if names := fd.Type.Params.List[len(fd.Type.Params.List)-1].Names; len(names) > 0 {
+				refs = names[0].Name
+			}
+			result := ""
+			if fd.Type.Results != nil && len(fd.Type.Results.List) > 0 && len(fd.Type.Results.List[0].Names) > 0 {
+				result = fd.Type.Results.List[0].Names[0].Name
+			}
+			sameIndex, appends := false, false
+			ast.Inspect(fd.Body, func(n ast.Node) bool {
+				switch x := n.(type) {
+				case *ast.RangeStmt:
+					key, ok := x.Key.(*ast.Ident)
+					if !ok {
+						return true
+					}
+					readsRef, storesAt := false, false
+					ast.Inspect(x.Body, func(m ast.Node) bool {
+						switch y := m.(type) {
+						case *ast.IndexExpr:
+							if id, ok := y.Index.(*ast.Ident); ok && id.Name == key.Name && strings.Contains(nodeText(c.fset, y.X), refs) {
+								readsRef = true
+							}
+						case *ast.AssignStmt:
+							for _, l := range y.Lhs {
+								if ix, ok := l.(*ast.IndexExpr); ok {
+									if id, ok := ix.Index.(*ast.Ident); ok && id.Name == key.Name && nodeText(c.fset, ix.X) == result {
+										storesAt = true
+									}
+								}
+							}
+						}
+						return true
+					})
+					if readsRef && storesAt {
+						sameIndex = true
+					}
+				case *ast.CallExpr:
+					if id, ok := x.Fun.(*ast.Ident); ok && id.Name == "append" && len(x.Args) > 0 && nodeText(c.fset, x.Args[0]) == result {
+						appends = true
+					}
+				}
+				return true
+			})
+			pf.FlowsInRefOrder = refs != "" && result != "" && sameIndex && !appends
+		}
+		if !found {
+			c.fail("protocol facts: sequenceFlows not found in flow_wiring.go")
+		}
+	}
+	// --- flow.go: when the handler of an answer is read
+	if f := c.parse("flow.go"); f == nil {
+		c.fail("protocol facts: flow.go not found")
+	} else {
+		reads, guarded := 0, 0
+		var stack []ast.Node
+		ast.Inspect(f, func(n ast.Node) bool {
+			if n == nil {
+				stack = stack[:len(stack)-1]
+				return true
+			}
+			stack = append(stack, n)
+			if u, ok := n.(*ast.UnaryExpr); ok && u.Op == token.ARROW {
+				if se, ok := u.X.(*ast.SelectorExpr); ok && se.Sel.Name == "handler" {
+					reads++
+					for _, anc := range stack {
+						if is, ok := anc.(*ast.IfStmt); ok && strings.Contains(nodeText(c.fset, is.Cond), "err != nil") && is.Body.Pos() <= n.Pos() && n.End() <= is.Body.End() {
+							guarded++
+							break
+						}
+					}
+				}
+			}
+			return true
+		})
+		if reads == 0 {
+			c.fail("protocol facts: flow.go never receives from a handler channel")
+		}
+		pf.HandlerOnlyOnError = reads > 0 && guarded == reads
+	}
 	// --- pkg/data/impl.go
 	if sv := findMethod(c.parse("pkg/data/impl.go"), "FlowDataLocator", "SetVariable"); sv == nil {
 		c.fail("protocol facts: FlowDataLocator.SetVariable not found in pkg/data/impl.go")
@@ -473,8 +572,8 @@ func protocolFacts(c *factsCtx) (pf protoFacts) {
 func init() {
 	factGens = append(factGens, func(c *factsCtx) {
 		pf := protocolFacts(c)
-		fmt.Fprintf(&c.out, "(* protocol facts read off the sources (harness/protocol.go) *)\nDefinition src_active_before_arm : bool := %v.\nDefinition src_termchan_capacity : nat := %d.\nDefinition src_termchan_table_kept : bool := %v.\nDefinition src_determination_is_cas : bool := %v.\nDefinition src_subprocess_registers : bool := %v.\nDefinition src_determination_flag_per_activation : bool := %v.\nDefinition src_join_counter_bits : N := %d%%N.\nDefinition src_join_counter_resets : bool := %v.\nDefinition src_setvariable_replaces : bool := %v.\nDefinition src_token_counter_never_set_back : bool := %v.\nDefinition src_monitor_accumulator_is_local : bool := %v.\nDefinition src_probing_key_is_the_id : bool := %v.\n\n",
-			pf.ActiveBeforeArm, pf.TermChanCapacity, pf.TermChanTableKept, pf.DeterminationIsCAS, pf.SubProcessRegisters, pf.FlagPerActivation, pf.JoinCounterBits, pf.JoinCounterResets, pf.SetVariableReplaces, pf.CounterNeverSetBack, pf.AccumulatorIsLocal, pf.ProbingKeyIsTheId)
+		fmt.Fprintf(&c.out, "(* protocol facts read off the sources (harness/protocol.go) *)\nDefinition src_active_before_arm : bool := %v.\nDefinition src_termchan_capacity : nat := %d.\nDefinition src_termchan_table_kept : bool := %v.\nDefinition src_determination_is_cas : bool := %v.\nDefinition src_subprocess_registers : bool := %v.\nDefinition src_determination_flag_per_activation : bool := %v.\nDefinition src_join_counter_bits : N := %d%%N.\nDefinition src_join_counter_resets : bool := %v.\nDefinition src_setvariable_replaces : bool := %v.\nDefinition src_token_counter_never_set_back : bool := %v.\nDefinition src_monitor_accumulator_is_local : bool := %v.\nDefinition src_probing_key_is_the_id : bool := %v.\nDefinition src_flows_in_reference_order : bool := %v.\nDefinition src_handler_read_only_on_error : bool := %v.\n\n",
+			pf.ActiveBeforeArm, pf.TermChanCapacity, pf.TermChanTableKept, pf.DeterminationIsCAS, pf.SubProcessRegisters, pf.FlagPerActivation, pf.JoinCounterBits, pf.JoinCounterResets, pf.SetVariableReplaces, pf.CounterNeverSetBack, pf.AccumulatorIsLocal, pf.ProbingKeyIsTheId, pf.FlowsInRefOrder, pf.HandlerOnlyOnError)
 	})
 	commands["protocol"] = func(env *Env) {
 		c := &factsCtx{repo: env.Repo, fset: token.NewFileSet()}
